@@ -3,6 +3,7 @@ package main
 import (
 	"fmt"
 	"go/token"
+	"go/types"
 	"sort"
 	"strings"
 
@@ -78,11 +79,35 @@ func extractScriptRows(c *Ctx, pa *provAnalysis, pk *Packager) []scriptRow {
 			}
 			rows = append(rows, scriptRow{Slot: slot, Fields: scriptAtoms(p), At: in, Fn: fn, Kind: "rpm"})
 		})
-		// struct literals: elements of an array of files.Content with a
-		// constant Destination and a Source fed from a script field
+		// rpm through a helper: a call that passes a bound rpmpack Add* method
+		// value together with a script path
+		forEachInstr(fn, func(in ssa.Instruction) {
+			call, ok := in.(*ssa.Call)
+			if !ok {
+				return
+			}
+			slot := ""
+			for _, a := range call.Call.Args {
+				if s := boundRPMSlot(a); s != "" {
+					slot = s
+				}
+			}
+			if slot == "" {
+				return
+			}
+			p := provSet{}
+			for _, a := range call.Call.Args {
+				if boundRPMSlot(a) == "" {
+					p.add(pa.Of(a))
+				}
+			}
+			rows = append(rows, scriptRow{Slot: slot, Fields: scriptAtoms(p), At: in, Fn: fn, Kind: "rpm"})
+		})
+		// struct literals: elements of an array of structs with one constant
+		// string field (the slot) and a field fed from a script path
 		forEachInstr(fn, func(in ssa.Instruction) {
 			al, ok := in.(*ssa.Alloc)
-			if !ok || !arrayOfContent(al) {
+			if !ok || !arrayOfStruct(al) {
 				return
 			}
 			for _, ref := range *al.Referrers() {
@@ -90,10 +115,26 @@ func extractScriptRows(c *Ctx, pa *provAnalysis, pk *Packager) []scriptRow {
 				if !ok {
 					continue
 				}
-				var dest string
-				var src provSet
-				var mode provSet
+				var slots []string
+				src := provSet{}
+				var consts []string
+				// fields are stored either directly below the element or into a
+				// local struct that is then copied into the element
+				bases := []ssa.Value{ia}
 				for _, r2 := range *ia.Referrers() {
+					if st, ok := r2.(*ssa.Store); ok && st.Addr == ssa.Value(ia) {
+						if ld, ok := st.Val.(*ssa.UnOp); ok {
+							if loc, ok := ld.X.(*ssa.Alloc); ok {
+								bases = append(bases, loc)
+							}
+						}
+					}
+				}
+				var fieldRefs []ssa.Instruction
+				for _, b := range bases {
+					fieldRefs = append(fieldRefs, *b.Referrers()...)
+				}
+				for _, r2 := range fieldRefs {
 					fa, ok := r2.(*ssa.FieldAddr)
 					if !ok {
 						continue
@@ -103,24 +144,22 @@ func extractScriptRows(c *Ctx, pa *provAnalysis, pk *Packager) []scriptRow {
 						if !ok {
 							continue
 						}
-						switch fieldName(fa.X.Type(), fa.Field) {
-						case "Destination":
-							if k, ok := st.Val.(*ssa.Const); ok {
-								dest = constString(k)
+						if k, ok := st.Val.(*ssa.Const); ok && k.Value != nil && k.Value.Kind().String() == "String" {
+							if constString(k) != "" {
+								slots = append(slots, constString(k))
 							}
-						case "Source":
-							src = pa.Of(st.Val)
-						case "FileInfo":
-							mode = pa.Of(st.Val)
+							continue
+						}
+						p := pa.Of(st.Val)
+						if len(scriptAtoms(p)) > 0 {
+							src.add(p)
+						} else {
+							consts = append(consts, p.consts()...)
 						}
 					}
 				}
-				if src != nil && len(scriptAtoms(src)) > 0 {
-					row := scriptRow{Slot: dest, Fields: scriptAtoms(src), At: ia, Fn: fn, Kind: "literal"}
-					if mode != nil {
-						row.Consts = mode.consts()
-					}
-					rows = append(rows, row)
+				if len(slots) == 1 && len(scriptAtoms(src)) > 0 {
+					rows = append(rows, scriptRow{Slot: slots[0], Fields: scriptAtoms(src), Consts: consts, At: ia, Fn: fn, Kind: "literal"})
 				}
 			}
 		})
@@ -128,10 +167,56 @@ func extractScriptRows(c *Ctx, pa *provAnalysis, pk *Packager) []scriptRow {
 	return rows
 }
 
-func arrayOfContent(al *ssa.Alloc) bool {
-	t := derefType(al.Type())
-	s := t.String()
-	return strings.HasPrefix(s, "[") && strings.HasSuffix(s, "files.Content")
+// boundRPMSlot: the value is a bound method value of one of rpmpack's
+// scriptlet setters (rpm.AddPrein passed as a func).
+func boundRPMSlot(v ssa.Value) string {
+	mc, ok := v.(*ssa.MakeClosure)
+	if !ok {
+		return ""
+	}
+	f, ok := mc.Fn.(*ssa.Function)
+	if !ok || !strings.Contains(f.Synthetic, "bound method") {
+		return ""
+	}
+	name := strings.TrimSuffix(f.Name(), "$bound")
+	if len(mc.Bindings) == 1 && isPtrToNamed(mc.Bindings[0].Type(), rpmpackPath, "RPM") {
+		return rpmScriptMethods[name]
+	}
+	return ""
+}
+
+// funcParamIsRPMSlot: a func-typed parameter that, at every module call site,
+// is bound to an rpmpack scriptlet setter.
+func funcParamIsRPMSlot(pa *provAnalysis, v ssa.Value) bool {
+	p, ok := v.(*ssa.Parameter)
+	if !ok {
+		return false
+	}
+	idx := -1
+	for i, q := range p.Parent().Params {
+		if q == p {
+			idx = i
+		}
+	}
+	sites := pa.callSites(p.Parent())
+	if idx < 0 || len(sites) == 0 {
+		return false
+	}
+	for _, cs := range sites {
+		if idx >= len(cs.Common().Args) || boundRPMSlot(cs.Common().Args[idx]) == "" {
+			return false
+		}
+	}
+	return true
+}
+
+func arrayOfStruct(al *ssa.Alloc) bool {
+	arr, ok := derefType(al.Type()).Underlying().(*types.Array)
+	if !ok {
+		return false
+	}
+	_, isStruct := arr.Elem().Underlying().(*types.Struct)
+	return isStruct
 }
 
 func checkC09(c *Ctx, r *Report) {
@@ -314,6 +399,7 @@ func checkScriptConsumers(c *Ctx, r *Report, pa *provAnalysis, pk *Packager, for
 		})
 	}
 	// S3: the bytes read flow to a write sink through conversions only
+	forwardPA = pa
 	for i, rd := range reads {
 		sinks, bad := forwardBytes(c, rd, map[ssa.Value]bool{}, 0)
 		construct := fmt.Sprintf("%s: bytes of script read#%d in %s", format, i+1, c.funcKey(rd.Parent()))
@@ -334,6 +420,8 @@ func checkScriptConsumers(c *Ctx, r *Report, pa *provAnalysis, pk *Packager, for
 // in-memory readers; sinks are archive writes, io.Copy sources and rpmpack
 // Add* slots. Any other function consuming the bytes and producing
 // bytes/strings/readers is a transformation.
+var forwardPA *provAnalysis
+
 func forwardBytes(c *Ctx, v ssa.Value, seen map[ssa.Value]bool, depth int) (sinks int, bad []string) {
 	if v == nil || seen[v] || depth > 12 || v.Referrers() == nil {
 		return 0, nil
@@ -398,6 +486,10 @@ func forwardBytes(c *Ctx, v ssa.Value, seen map[ssa.Value]bool, depth int) (sink
 			}
 			o := calleeObj(x)
 			if o == nil {
+				// a func-typed parameter that is always an rpmpack scriptlet setter
+				if cc.StaticCallee() == nil && !cc.IsInvoke() && forwardPA != nil && funcParamIsRPMSlot(forwardPA, cc.Value) && argIdx >= 0 {
+					sinks++
+				}
 				continue
 			}
 			q := qualifiedName(o)
@@ -503,11 +595,15 @@ func guardedIndirectly(c *Ctx, pa *provAnalysis, fn *ssa.Function, at ssa.Instru
 			return
 		}
 		rf := scriptAtoms(pa.Of(mu.Value))
-		if len(rf) != 1 {
+		if len(rf) == 0 {
 			return
 		}
+		// one row guarded by its own field, or a loop over a table of rows
+		// guarded by the row's own value
 		if ok, _ := directGuard(c, pa, fn, mu, rf); ok {
-			covered[rf[0]] = true
+			for _, f := range rf {
+				covered[f] = true
+			}
 		}
 	})
 	all := len(fields) > 0
